@@ -188,27 +188,39 @@ def kvsql_compare(c):
     """Direct KV vs SQL comparison of one history on the implementation's answers.
     Returns (first state/answer divergence or None, set of error-class pairs seen).
     A divergence is (kind, step index, description); kind is one of the two
-    specific, independently re-checked classes or 'other'."""
+    specific, independently re-checked classes or 'other'.  The re-check uses a view
+    (hash -> {attempt id: outcome}) rebuilt from the answers themselves (identical for
+    both backends up to the first divergence)."""
     errclass = set()
-    owner = {}      # attempt id -> set of hashes it was successfully registered under
+    view = {}
     for i, s in enumerate(c["steps"]):
         a, b = s["kv"], s["sql"]
-        k = s["op"][0]
+        o = s["op"]
+        k = o[0]
         same_payload = a["p"] == b["p"] and a["l"] == b["l"]
-        if same_payload and a["e"] == b["e"]:
-            if k == "reg" and a["e"] == 0:
-                owner.setdefault(s["op"][2], set()).add(s["op"][1])
-            continue
-        if same_payload and a["p"] is None and (k, a["e"], b["e"]) in ERRCLASS:
+        agree = same_payload and a["e"] == b["e"]
+        if not agree and same_payload and a["p"] is None and (k, a["e"], b["e"]) in ERRCLASS:
             errclass.add("%s:%s/%s" % (k, ERR[a["e"]], ERR[b["e"]]))
+            agree = True
+        if agree:
+            if a["p"] is not None:
+                view[o[1]] = {x[0]: x[2] for x in a["p"]["at"]}
+            for hh, pp in a["l"]:
+                view[hh] = {x[0]: x[2] for x in pp["at"]}
+            if a["e"] == 0:
+                if k == "init" or (k == "delpay" and not o[2]):
+                    view[o[1]] = {}
+                elif k == "delfailed" or (k == "delpay" and o[2]):
+                    view[o[1]] = {x: y for x, y in view.get(o[1], {}).items() if y != 2}
             continue
         if k == "reg" and a["e"] == 0 and b["e"] == 1 and b["p"] is None \
                 and "payment_htlc_attempts.attempt_index" in b.get("m", "") \
-                and s["op"][2] in owner:
+                and any(o[2] in ids for ids in view.values()):
             return ("dup-attempt-id", i, "RegisterAttempt with an attempt id that is already "
                     "in use: KVStore accepts (overwrites / shares it), SQLStore rejects"), errclass
         if k in ("settle", "failatt") and a["e"] == 1 and a["p"] is None and b["e"] == 0 \
-                and s["op"][2] in owner and s["op"][1] not in owner[s["op"][2]]:
+                and o[2] not in view.get(o[1], {}) \
+                and any(ids.get(o[2]) == 0 for hh, ids in view.items() if hh != o[1]):
             return ("cross-payment-resolve", i, "Settle/FailAttempt through another payment's "
                     "hash: KVStore rejects, SQLStore resolves the other payment's attempt"), \
                 errclass
